@@ -26,10 +26,12 @@ def run(ctx):
     if ctx.quick:
         mc_feat.run_detect(ctx, 'C06', 4)
         cases, recs, _ = pipeline.run_corpus(ctx, 150, PREFIXES, seed_offset=6, mutate_opts=cyc)
+        pipeline.run_large(ctx, PREFIXES, 6, 3, 1, mutate_opts=cyc)          # beyond small scopes: long cycles, long recordings
         own_values(ctx, 80)
     else:
         mc_feat.run_detect(ctx, 'C06', 5)
         pipeline.run_corpus(ctx, 3000, PREFIXES, seed_offset=6, mutate_opts=cyc, max_len=2600)
+        pipeline.run_large(ctx, PREFIXES, 6, 12, 6, mutate_opts=cyc)          # beyond small scopes: long cycles, long recordings
         own_values(ctx, 1500)
 
 
